@@ -30,18 +30,19 @@ fn p2wpkh(r: &mut Rng) -> Script {
 /// Build a real PSET for a structural scenario; values are chosen so that every asset balances.
 pub fn build(c: &Value, r: &mut Rng) -> Built {
     let secp = pools::secp();
-    let assets: HashMap<&str, AssetId> = [("A", pools::asset_id(r)), ("B", pools::asset_id(r))].into_iter().collect();
+    let mut assets: HashMap<String, AssetId> = [("A".to_string(), pools::asset_id(r)), ("B".to_string(), pools::asset_id(r))].into_iter().collect();
     let mut pset = Pset::new_v2();
     let (mut utxos, mut in_secrets, mut in_owner) = (vec![], vec![], vec![]);
-    let mut pot: HashMap<&str, u64> = HashMap::new();
-    let mut planned: Vec<(usize, usize, &str, u64, usize)> = vec![]; // (party, k, asset, value, blinder input index)
+    let mut pot: HashMap<String, u64> = HashMap::new();
+    let mut planned: Vec<(usize, usize, String, u64, usize)> = vec![]; // (party, k, asset, value, blinder input index)
     let parties = c["parties"].as_array().unwrap();
     for (pi, p) in parties.iter().enumerate() {
         let party = pi + 1;
-        let mut totals: HashMap<&str, u64> = HashMap::new();
-        let mut first_input_of: HashMap<&str, usize> = HashMap::new();
+        let mut totals: HashMap<String, u64> = HashMap::new();
+        let mut first_input_of: HashMap<String, usize> = HashMap::new();
         for i in p["ins"].as_array().unwrap() {
-            let a = i["asset"].as_str().unwrap();
+            let a = i["asset"].as_str().unwrap().to_string();
+            let a = a.as_str();
             let v = 100_000 + (r.next_u64() % 900_000);
             let (abf, vbf) = if i["conf"].as_bool().unwrap() { (pools::abf(r), pools::vbf(r)) } else { (AssetBlindingFactor::zero(), ValueBlindingFactor::zero()) };
             let sec = TxOutSecrets::new(assets[a], abf, v, vbf);
@@ -52,32 +53,61 @@ pub fn build(c: &Value, r: &mut Rng) -> Built {
                 script_pubkey: p2wpkh(r),
                 witness: Default::default(),
             };
-            let mut inp = Input::from_prevout(OutPoint::new(Txid::from_byte_array(pools::bytes32(r)), utxos.len() as u32));
+            let prevout = OutPoint::new(Txid::from_byte_array(pools::bytes32(r)), utxos.len() as u32);
+            let mut inp = Input::from_prevout(prevout);
             inp.witness_utxo = Some(utxo.clone());
+            // an explicit (unblinded) issuance on this input: issued asset "N" and / or reissuance tokens "T", owned by this party
+            let iss = i["iss"].as_str().unwrap_or("none");
+            if iss != "none" {
+                let contract = pools::bytes32(r);
+                inp.issuance_asset_entropy = Some(contract);
+                inp.blinded_issuance = Some(0);
+                let entropy = AssetId::generate_asset_entropy(prevout, elements::ContractHash::from_byte_array(contract));
+                if iss.contains("amt") {
+                    let v = 1_000 + r.next_u64() % 1_000_000;
+                    inp.issuance_value_amount = Some(v);
+                    let name = format!("N{}", party);
+                    assets.insert(name.clone(), AssetId::from_entropy(entropy));
+                    first_input_of.entry(name.clone()).or_insert(utxos.len());
+                    *totals.entry(name).or_insert(0) += v;
+                }
+                if iss.contains("tok") {
+                    let v = 1 + r.next_u64() % 1_000;
+                    inp.issuance_inflation_keys = Some(v);
+                    let name = format!("T{}", party);
+                    assets.insert(name.clone(), AssetId::reissuance_token_from_entropy(entropy, false));
+                    first_input_of.entry(name.clone()).or_insert(utxos.len());
+                    *totals.entry(name).or_insert(0) += v;
+                }
+            }
             pset.add_input(inp);
-            first_input_of.entry(a).or_insert(utxos.len());
+            first_input_of.entry(a.to_string()).or_insert(utxos.len());
             utxos.push(utxo);
             in_secrets.push(sec);
             in_owner.push(party);
-            *totals.entry(a).or_insert(0) += v;
+            *totals.entry(a.to_string()).or_insert(0) += v;
         }
         // split each asset's total among the party's outputs of that asset; what is not assigned goes to the pot
-        let outs: Vec<&str> = p["outs"].as_array().unwrap().iter().map(|x| x.as_str().unwrap()).collect();
-        for (a, total) in totals.iter() {
+        // the issued asset / token of this party are called "N" / "T" in the scenario
+        let outs: Vec<String> = p["outs"].as_array().unwrap().iter().map(|x| { let n = x.as_str().unwrap(); if n == "N" || n == "T" { format!("{}{}", n, party) } else { n.to_string() } }).collect();
+        let mut names: Vec<&String> = totals.keys().collect();
+        names.sort();
+        for a in names {
+            let total = totals[a];
             let ks: Vec<usize> = outs.iter().enumerate().filter(|(_, x)| *x == a).map(|(k, _)| k + 1).collect();
             if ks.is_empty() {
-                *pot.entry(a).or_insert(0) += *total;
+                *pot.entry(a.clone()).or_insert(0) += total;
                 continue;
             }
-            let mut rest = *total;
-            if *a == "A" && party == 1 {
+            let mut rest = total;
+            if a == "A" && party == 1 {
                 rest -= 5_000;
-                *pot.entry("A").or_insert(0) += 5_000;
+                *pot.entry("A".to_string()).or_insert(0) += 5_000;
             }
             for (n, k) in ks.iter().enumerate() {
-                let v = if n + 1 == ks.len() { rest } else { 1 + r.next_u64() % (rest / 2) };
+                let v = if n + 1 == ks.len() { rest } else { 1 + r.next_u64() % (rest / 2).max(1) };
                 rest -= v;
-                planned.push((party, *k, a, v, first_input_of[a]));
+                planned.push((party, *k, a.clone(), v, first_input_of[a]));
             }
         }
     }
@@ -92,8 +122,10 @@ pub fn build(c: &Value, r: &mut Rng) -> Built {
     if nexpl > 0 {
         explicit.push(Output::new_explicit(p2wpkh(r), pot_a - fee, assets["A"], None));
     }
-    if let Some(b) = pot.get("B") {
-        explicit.push(Output::new_explicit(p2wpkh(r), *b, assets["B"], None));
+    let mut pot_names: Vec<&String> = pot.keys().filter(|k| *k != "A").collect();
+    pot_names.sort();
+    for name in pot_names {
+        explicit.push(Output::new_explicit(p2wpkh(r), pot[name], assets[name], None));
     }
     let explicit_first = r.next_u32() % 2 == 0;
     if explicit_first {
@@ -102,13 +134,13 @@ pub fn build(c: &Value, r: &mut Rng) -> Built {
     for (party, k, a, v, blinder) in planned {
         let sk = pools::secret_key(r);
         let pk = elements::bitcoin::PublicKey::new(elements::secp256k1_zkp::PublicKey::from_secret_key(secp, &sk));
-        let mut o = Output::new_explicit(p2wpkh(r), v, assets[a], Some(pk));
+        let mut o = Output::new_explicit(p2wpkh(r), v, assets[&a], Some(pk));
         o.blinder_index = Some(blinder as u32);
         let idx = pset.outputs().len();
         pset.add_output(o);
         out_index.insert((party, k), idx);
         receivers.insert(idx, sk);
-        orig.insert(idx, (assets[a], v));
+        orig.insert(idx, (assets[&a], v));
     }
     for o in explicit.drain(..) { pset.add_output(o); }
     Built { pset, utxos, in_secrets, in_owner, out_index, receivers, orig }
@@ -121,7 +153,8 @@ fn run_case(c: &Value, seed: u64, ci: usize) -> (Vec<(String, Value, String)>, u
     let mut r = rng(seed, 0x0900_0000 + ci as u64);
     let np = c["parties"].as_array().unwrap().len();
     let hop = c["hop"].as_bool().unwrap();
-    let cls = format!("np={}/hop={}", np, hop);
+    let has_iss = c["parties"].as_array().unwrap().iter().any(|p| p["ins"].as_array().unwrap().iter().any(|i| i["iss"].as_str().unwrap_or("none") != "none"));
+    let cls = format!("np={}/hop={}{}", np, hop, if has_iss { "/issuance" } else { "" });
     let case = json!({"case_index": ci, "seed": seed, "parties": c["parties"], "order": c["order"], "hop": hop, "nexpl": c["nexpl"]});
     let res = guard(|| {
         let mut bad: Vec<(String, String)> = vec![];
